@@ -201,7 +201,11 @@ def op_mkfield(st, o):
         r = np.random.default_rng(o["value"].get("seed", 1) + 5)
         arr = arr.astype(np.complex128) + 1j * r.integers(-9, 10, size=arr.shape)
     valid = make_array(dict(o["valid"], shape=list(mm.n))) if o.get("valid") else np.ones(mm.n, dtype=bool)
-    kw = dict(nvdim=nvdim, value=arr.copy(), valid=valid.copy())
+    kw = dict(nvdim=nvdim, value=arr.copy())
+    if o.get("valid"):
+        kw["valid"] = valid.copy()  # otherwise the constructor's own default (True) is exercised
+    if o.get("mapping") is not None:
+        kw["vdim_mapping"] = dict(o["mapping"])
     if o.get("vdims") is not None:
         kw["vdims"] = list(o["vdims"])
     if o.get("unit") is not None:
